@@ -432,28 +432,29 @@ CORNER_DIRS = [(0.0, 0.0, 1.0), (0.36, -0.48, 0.8)]
 CORNER_TAUS = [(0.0, 0.0, 0.0), (1.0, -2.0, 0.5), (TAU_MAX, 0.0, 0.0), (1e-30, 1e-30, -1e-30), (-0.3, 0.4, 1e-9), (2e6, -1e9, 3e3)]
 
 
-def run_corpus(ctx: Ctx, lines, metas):
+def corpus_batches():
     """seed-independent: every (theta, sigma) corner pair, axis-aligned (norm exact) and generic direction, fixed
-    translations, fixed batch cuts (mixed regimes), degenerate shapes"""
+    translations, logarithmic sweeps, fixed batch cuts (mixed regimes), degenerate shapes.
+    yields (name, dtype, rows, shape, api)"""
     for dtype in ("float64", "float32"):
         e = common.EPS[dtype]
         ths, sgs = corner_values(e)
-        for name in U.GROUPS:
+        for name in ("Sim3", "SE3", "RxSO3", "SO3"):
+            has_s, has_t = name in ("RxSO3", "Sim3"), name in ("SE3", "Sim3")
             items, k = [], 0
             for th in ths:
                 for d in CORNER_DIRS:
-                    for sg in (sgs if name in ("RxSO3", "Sim3") else [0.0]):
+                    for sg in (sgs if has_s else [0.0]):
                         out = []
-                        if name in ("SE3", "Sim3"):
+                        if has_t:
                             out += list(CORNER_TAUS[k % len(CORNER_TAUS)])
                         out += [th * d[0], th * d[1], th * d[2]]
-                        if name in ("RxSO3", "Sim3"):
+                        if has_s:
                             out.append(sg)
                         items.append(out)
                         k += 1
             # logarithmic sweeps, 4 points per decade: no band of theta or |sigma| wider than a quarter decade is skipped
             d = CORNER_DIRS[1]
-            has_s, has_t = name in ("RxSO3", "Sim3"), name in ("SE3", "Sim3")
             sw = []
             for j in range(-72, 5):          # theta = 1e-18 .. 10
                 th = 10.0 ** (j / 4)
@@ -469,12 +470,18 @@ def run_corpus(ctx: Ctx, lines, metas):
                 items.append(out)
             for i in range(0, len(items), 23):
                 rows = items[i:i + 23]
-                check_batch(ctx, "corpus", name, dtype, rows, (len(rows),), (i // 23) % 4, lines, metas)
+                yield name, dtype, rows, (len(rows),), (i // 23) % 4
             # degenerate shapes
             z = [0.0] * U.ADIM[name]
             one = items[len(items) // 2]
             for shape, rows in (((), [one]), ((1,), [z]), ((1, 1, 1), [one]), ((0,), []), ((2, 0), []), ((2, 1, 2), [z, one, one, z])):
-                check_batch(ctx, "corpus", name, dtype, rows, shape, 0, lines, metas)
+                yield name, dtype, rows, shape, 0
+
+
+def run_corpus(ctx: Ctx, lines, metas):
+    for name, dtype, rows, shape, api in corpus_batches():
+        check_batch(ctx, "corpus", name, dtype, rows, shape, api, lines, metas)
+
 
 # ----------------------------------------------------------------------------- oracle (mpmath, the property itself)
 
@@ -615,18 +622,14 @@ def search(ctx: Ctx):
                 return
     if ctx.failures:
         return
-    rng = ctx.rng
-    for dtype in ("float64", "float32"):
-        e = common.EPS[dtype]
-        for name in U.GROUPS:
-            sigs = sigma_ladder(e) if name in ("RxSO3", "Sim3") else [0.0]
-            for th in theta_ladder(e):
-                for sg in sigs:
-                    xi = make_item(rng, name, e, th, sg, rng.choice([1.0, 1e3, 1e-3]))
-                    xi = U.to_dtype_exact([xi], dtype)[1][0].tolist()
-                    oracle_batch(ctx, {"stream": "search", "type": name, "dtype": dtype, "shape": [1], "api": 0, "X": [xi]})
-                    if len(ctx.failures) >= 5:
-                        return
+    # the whole deterministic corpus (corners, thresholds +-1 ulp, quarter-decade sweeps) through the mpmath oracle
+    for name, dtype, rows, shape, api in corpus_batches():
+        if not rows:
+            continue
+        r64 = U.to_dtype_exact(rows, dtype)[1].tolist()
+        oracle_batch(ctx, {"stream": "search-corpus", "type": name, "dtype": dtype, "shape": list(shape), "api": api, "X": r64})
+        if len(ctx.failures) >= 5:
+            return
     run_oracle(ctx, 3000)
 
 
